@@ -124,11 +124,19 @@ PolViol(r) ==
   ELSE IF \E i \in 1..Len(r.rows) : LET want == PolicyAns(r.rows[i].p, r.rows[i].c) IN want >= 0 /\ r.rows[i].a # want
        THEN {<<"C09", "builtin_policy_arithmetic">>} ELSE {}
 
+\* the same 9 MiB record read with an initial capacity of 64 KiB, of 8 MiB and of 16 MiB (no growth needed): C03 - the outcome
+\* is the same for every initial capacity (the default policy permits every size)
+GiantCmpViol(r) ==
+  LET Sum(x) == IF x.ev = "stuck" THEN [stuck |-> TRUE]
+                ELSE IF x.panic THEN [panic |-> TRUE]
+                ELSE [first |-> x.first, second |-> x.second, then_none |-> x.then_none]
+  IN IF \E i, j \in 1..Len(r.runs) : Sum(r.runs[i]) # Sum(r.runs[j]) THEN {<<"C03", "outcome_depends_on_the_initial_capacity">>} ELSE {}
+
 \* a case that did not finish within a minute (C06: no input makes the readers loop forever; C10 for the writers)
 StuckViol(r) == IF r.writing THEN {<<"C10", "write_function_hangs">>} ELSE {<<"C06", "hang">>}
 
 Next == /\ l <= Len(Rec)
-        /\ LET v == IF Rec[l].ev = "stuck" THEN StuckViol(Rec[l]) ELSE IF Rec[l].ev = "giant" THEN GiantViol(Rec[l]) ELSE IF Rec[l].ev = "longw" THEN LongWriteViol(Rec[l]) ELSE IF Rec[l].ev = "poltab" THEN PolViol(Rec[l]) ELSE Viol(Rec[l]) IN
+        /\ LET v == IF Rec[l].ev = "giantcmp" THEN GiantCmpViol(Rec[l]) ELSE IF Rec[l].ev = "stuck" THEN StuckViol(Rec[l]) ELSE IF Rec[l].ev = "giant" THEN GiantViol(Rec[l]) ELSE IF Rec[l].ev = "longw" THEN LongWriteViol(Rec[l]) ELSE IF Rec[l].ev = "poltab" THEN PolViol(Rec[l]) ELSE Viol(Rec[l]) IN
              v # {} => PrintT(<<"MISMATCH", ToJson([kind |-> "long", line |-> l, run |-> l, props |-> {x[1] : x \in v}, why |-> {x[2] : x \in v},
                                                    extra |-> [fmt |-> Rec[l].fmt, cap |-> Rec[l].cap, ev |-> Rec[l].ev]])>>)
         /\ l' = l + 1
